@@ -9,6 +9,9 @@ sexp sexp_bit_and (sexp ctx, sexp self, sexp_sint_t n, sexp x, sexp y);
 sexp sexp_sort_x (sexp ctx, sexp self, sexp_sint_t n, sexp seq, sexp less, sexp key);
 sexp sexp_hash_table_cell (sexp ctx, sexp self, sexp_sint_t n, sexp ht, sexp obj, sexp createp);
 sexp sexp_bignum_add_fixnum (sexp ctx, sexp a, sexp b);
+sexp sexp_arithmetic_shift (sexp ctx, sexp self, sexp_sint_t n, sexp i, sexp count);
+sexp sexp_bit_xor (sexp ctx, sexp self, sexp_sint_t n, sexp x, sexp y);
+sexp sexp_string_utf8_index_set (sexp ctx, sexp self, sexp_sint_t n, sexp str, sexp i, sexp ch);
 KIT_C_END
 
 void harness(void) {
@@ -48,7 +51,7 @@ void harness(void) {
   sexp buckets = kit_vector(2);
   sexp_vector_data(buckets)[0] = SEXP_NULL; sexp_vector_data(buckets)[1] = SEXP_NULL;
   sexp_slot_ref(ht, 0) = buckets; sexp_slot_ref(ht, 1) = SEXP_ZERO; sexp_slot_ref(ht, 2) = SEXP_ONE; sexp_slot_ref(ht, 3) = SEXP_ONE;
-  kit_gc_root(ht); kit_gc_root(buckets);
+  kit_gc_root_record(ht, 4); kit_gc_root(buckets);
   sexp key = sexp_make_fixnum(5);
   sexp r = sexp_hash_table_cell(ctx, SEXP_FALSE, 3, ht, key, e0);
   KIT_ASSERT(sexp_pairp(r) && sexp_car(r) == key && sexp_cdr(r) == e0, "created cell intact");
@@ -60,6 +63,44 @@ void harness(void) {
   kit_gc_root(ls);
   sexp r = sexp_string_concatenate_op(ctx, SEXP_FALSE, 2, ls, SEXP_FALSE);
   KIT_ASSERT(sexp_stringp(r) && sexp_string_size(r) == 3 && sexp_string_data(r)[0] == sexp_string_data(s1)[0] && sexp_string_data(r)[2] == sexp_string_data(s2)[0], "concatenation intact");
+#elif FN == 9     /* left shift of a fixnum that overflows into a bignum (temporary bignum across the recursive call) */
+  sexp r = sexp_arithmetic_shift(ctx, SEXP_FALSE, 2, sexp_make_fixnum(5), sexp_make_fixnum(70));
+  KIT_ASSERT(sexp_bignump(r) && sexp_bignum_length(r) >= 2 && sexp_bignum_data(r)[1] == (5UL << 6), "5 << 70 is the exact bignum for every collection schedule");
+#elif FN == 10    /* xor of a fixnum and a bignum */
+  sexp x = kit_any_bignum(2, 1);
+  kit_gc_root(x);
+  sexp r = sexp_bit_xor(ctx, SEXP_FALSE, 2, sexp_make_fixnum(-3), x);
+  KIT_ASSERT(sexp_fixnump(r) || (sexp_bignump(r) && sexp_bignum_data(r)[0] == sexp_bignum_data(r)[0]), "xor result is a live integer");
+#elif FN == 11    /* substring of a 3-byte ASCII string */
+  sexp b = kit_bytes(3); sexp_bytes_data(b)[0] = 'a'; sexp_bytes_data(b)[1] = 'b'; sexp_bytes_data(b)[2] = 'c';
+  sexp s1 = kit_string_over(b, 0, 3);
+  kit_gc_root(s1);
+  sexp r = sexp_substring_op(ctx, SEXP_FALSE, 3, s1, sexp_make_string_cursor(1), sexp_make_string_cursor(3));
+  KIT_ASSERT(sexp_stringp(r) && sexp_string_size(r) == 2 && sexp_string_data(r)[0] == 'b' && sexp_string_data(r)[1] == 'c', "substring intact");
+#elif FN == 12    /* width-changing string-set!: the string moves to a freshly allocated store */
+  sexp b = kit_bytes(2); sexp_bytes_data(b)[0] = 'a'; sexp_bytes_data(b)[1] = 'b';
+  sexp s1 = kit_string_over(b, 0, 2);
+  kit_gc_root(s1);
+  sexp r = sexp_string_utf8_index_set(ctx, SEXP_FALSE, 3, s1, sexp_make_fixnum(0), sexp_make_character(0x3BB));
+  KIT_ASSERT(r == SEXP_VOID && sexp_string_size(s1) == 3 && (unsigned char)sexp_string_data(s1)[0] == 0xCE && (unsigned char)sexp_string_data(s1)[1] == 0xBB && sexp_string_data(s1)[2] == 'b', "string-set! result intact");
+#elif FN == 13    /* make-ephemeron */
+  sexp r = sexp_make_ephemeron_op(ctx, SEXP_FALSE, 2, e0, e1);
+  KIT_ASSERT(sexp_ephemeronp(r) && sexp_ephemeron_key(r) == e0 && sexp_ephemeron_value(r) == e1, "ephemeron intact");
+#elif FN == 14    /* hash-table-cell create that triggers a regrow: 1 bucket, size large enough for the resize test */
+  sexp ht = kit_alloc_tagged(sexp_sizeof_header + 4 * sizeof(sexp), SEXP_NUM_CORE_TYPES + 3);
+  sexp buckets = kit_vector(1);
+  sexp oldcell = kit_pair(sexp_make_fixnum(1), e1);
+  sexp_vector_data(buckets)[0] = kit_pair(oldcell, SEXP_NULL);
+  sexp_slot_ref(ht, 0) = buckets; sexp_slot_ref(ht, 1) = SEXP_ONE; sexp_slot_ref(ht, 2) = SEXP_ONE; sexp_slot_ref(ht, 3) = SEXP_ONE;
+  kit_gc_root_record(ht, 4);
+  sexp key = sexp_make_fixnum(6);
+  sexp r = sexp_hash_table_cell(ctx, SEXP_FALSE, 3, ht, key, e0);
+  KIT_ASSERT(sexp_pairp(r) && sexp_car(r) == key && sexp_cdr(r) == e0, "created cell intact after the regrow");
+  sexp nb = sexp_slot_ref(ht, 0);
+  KIT_ASSERT(sexp_vectorp(nb) && sexp_vector_length(nb) == 2 && sexp_slot_ref(ht, 1) == SEXP_TWO, "table regrown and updated");
+  int found_old = 0;
+  for (int k = 0; k < 2; k++) { sexp l = sexp_vector_data(nb)[k]; for (int d = 0; d < 3; d++) { if (!sexp_pairp(l)) break; if (sexp_car(l) == oldcell) found_old = 1; l = sexp_cdr(l); } }
+  KIT_ASSERT(found_old, "the old entry survives the regrow");
 #endif
   KIT_WITNESS();
 }
